@@ -18,13 +18,27 @@ CLAIMED = {
     "C03": ("model_checking", "6", "TLC recomputes the objective of every real episode from the integer instance",
             "Reward of every real episode (exact embedding) must equal the TLA+ Objective of the executed sequence; "
             "TLC-generated feasible solutions are replayed and priced as well."),
+    "C04": ("model_checking", "6", "BatchEq.tla: TLC validates real solo vs batched executions; padding monitors on real-env BFS traces",
+            "Sampled real episodes are re-run solo (batch of one) and as rows of mixed batches (copies, unrelated instances, slower "
+            "mates inducing padding); TLC checks step by step that masks, done flags and rewards coincide (BatchEq.tla) and that "
+            "post-finish padding changes nothing (M_PadC04 on every episode of the exhaustive expansion)."),
     "C05": ("model_checking", "6", "TLC product of problem definition x model; replay of all feasible solutions into the real mask",
             "TLC enumerates every feasible non-pointless solution of the problem definition; each is replayed step by "
             "step into the real environment and every action must be offered by the real mask."),
     "C06": ("model_checking", "6", "TLC classifies candidate solutions by the problem definition; real checker compared",
             "All feasible solutions, hand-shaped variants, single-fault corruptions and (small N) all sequences are "
             "classified by TLC with the problem definition and fed to the real check_solution_validity."),
+    "C10": ("model_checking", "6", "exact-arithmetic TLA+ model of the logits pipeline, TLC exhaustive; replay + TLC trace monitors on real process_logits",
+            "Logits.tla (mask, temperature, top-k, top-p, normalise on integer weights) is model-checked for all weight vectors x masks x "
+            "parameters of a small scope with the clauses of C10 as invariants; every terminal state is replayed into the real "
+            "process_logits/greedy/sampling and random float executions are validated by LogitsTrace.tla."),
+    "C20": ("model_checking", "6", "exact-rational TLA+ state machines (Welford, EMA, warm-up), TLC exhaustive; replay + TLC trace validation",
+            "Stats.tla is model-checked for all histories of a small scope (invariants: mean, M2, sample variance, EMA closed form, "
+            "warm-up weight and convex combination); every history is replayed into the real classes call by call; longer random "
+            "histories of the real classes are validated by StatsTrace.tla."),
 }
+PROTO_NOTE = ("Trusted base: TLC 1.8.0; the TLA+ protocol specifications under spec/decode, spec/train; float tolerances stated in the "
+              "trace specifications; small-scope hypothesis.")
 
 ALL = ["C%02d" % i for i in range(1, 21)]
 NOT_YET = "machinery for this property is not built yet in this round (see DESIGN.md section 12); nothing is claimed"
@@ -41,7 +55,7 @@ def main():
             "replay_cmd_template": "bin/check %s --replay {path}" % pid,
             "engine": "tlc+conformance",
             "level_claimed": {"category": cat, "text": text, "design_ref": "DESIGN.md section " + ref},
-            "level_note": ENV_NOTE,
+            "level_note": ENV_NOTE if pid in ("C01", "C02", "C03", "C04", "C05", "C06", "C07", "C08") else PROTO_NOTE,
             "technique": tech,
         })
     m = {
